@@ -1247,6 +1247,8 @@ fn builtin_pcap_open(args: Vec<Rc<Object>>) -> Result<Rc<Object>, String> {
             "x" => Ok(Pcap::new(f.clone())),
             _ => Err(String::from("invalid file open mode")),
         },
+        // the file could not be opened: hand the error object to the script
+        Object::Err(_) => return Ok(obj),
         _ => Err(String::from("unsupported argument")),
     }?;
     match res {
